@@ -54,8 +54,8 @@ def r1(R, repo):
         R.ok(key, f)
 
 
-@rule('C14.R2', 'K8', 30, 'in_filter is membership; is_filter_empty holds exactly when no name can match; filter_to_set is exact')
-def r2(R, repo):
+def check_in_filter(R, repo):
+  """in_filter(f, col) is exactly membership of col in f for every filter shape (shared with C01/C05)."""
   mod, funcs = _funcs(repo)
   F = mod.func('in_filter')
   for s in fa.shapes(3, 'a'):
@@ -71,6 +71,12 @@ def r2(R, repo):
     ok, cex = fa.equivalent(got, fa.member(s))
     R.check(ok, key, F, 'in_filter(%s, col) is not membership of col in the filter (e.g. substring instead of equality, or a wrong '
             'negation); counterexample %s' % (fa.show(s), cex))
+
+
+@rule('C14.R2', 'K8', 30, 'in_filter is membership; is_filter_empty holds exactly when no name can match; filter_to_set is exact')
+def r2(R, repo):
+  check_in_filter(R, repo)
+  mod, funcs = _funcs(repo)
   E = mod.func('is_filter_empty')
   for s in fa.shapes(3, 'a'):
     key = key_of(E, 'is_filter_empty(%s)' % fa.show(s))
